@@ -78,7 +78,17 @@ func (n *Node) String() string {
 func (n *Node) write(b *strings.Builder) {
 	switch n.Tag {
 	case "id", "num", "str":
-		b.WriteString("(" + n.Tag + " " + q(n.Text) + ")")
+		text := n.Text
+		if n.Tag == "num" {
+			// the implementation's tree holds the value of a literal: 007 is the number 7
+			if t := strings.TrimLeft(text, "0"); t != text && strings.Trim(text, "0123456789") == "" {
+				if t == "" {
+					t = "0"
+				}
+				text = t
+			}
+		}
+		b.WriteString("(" + n.Tag + " " + q(text) + ")")
 		return
 	case "entry":
 		b.WriteString("(" + q(n.Text) + " ")
